@@ -19,7 +19,7 @@ ROUTES = ["ts", "tp", "es", "ep", "ed", "edx", "vt", "tt"]
 DOC_ROUTES = ["ts", "tp", "es", "ep", "ed", "edx"]
 TYPES = ["Prims", "Nested", "MapS", "MapK", "Seqs", "Tuples", "Opts", "Enums", "EnumSeq", "EnumMap", "EnumNest", "Mixed", "OptTbl",
          "Empties", "Dts", "Floats", "Strs", "RootE", "RootMap", "RootMapE", "Deep", "IntEdge", "Wide", "Units", "SeqNone", "BadKeys",
-         "CharKeys", "NtKeys", "RootVec", "RootInt", "RootStr", "RootTuple", "RootOpt", "RootNt", "RootUnit", "RootDt", "RootE2", "TomlValue", "Holder"]
+         "CharKeys", "NtKeys", "RootVec", "RootInt", "RootStr", "RootTuple", "RootOpt", "RootNt", "RootUnit", "RootDt", "RootE2", "TomlValue", "Holder", "MapOpt"]
 INT_RANGE = {"i8": (-2 ** 7, 2 ** 7 - 1), "i16": (-2 ** 15, 2 ** 15 - 1), "i32": (-2 ** 31, 2 ** 31 - 1), "i64": (-2 ** 63, 2 ** 63 - 1),
              "u8": (0, 2 ** 8 - 1), "u16": (0, 2 ** 16 - 1), "u32": (0, 2 ** 32 - 1), "u64": (0, 2 ** 64 - 1),
              "i128": (-2 ** 127, 2 ** 127 - 1), "u128": (0, 2 ** 128 - 1)}
@@ -698,12 +698,19 @@ F7 = "class:F7 Value/Table::try_from keep a date-time as the private one-field t
 F7B = "class:F7b Table::try_from of a bare Datetime returns the private one-field table instead of refusing the non-table root"
 F16 = "class:F16 Value/Table::try_from drop a field whose value fails with UnsupportedNone below it (None inside a sequence / Some / newtype)"
 F17 = "class:F17 toml::to_string(_pretty) of a bare Datetime prints the private field name as a key instead of reporting a non-table root"
+F33 = "class:F33 a map entry whose value is None is skipped like an absent struct field: the key is lost on reading back"
+
+
+def has_none_map_value(v):
+    return any(n[0] == "map" and any(x[0] == "none" for _, x in n[1]) for n in walk(v))
 
 
 def classify(v, f, bad):
     """attribute one failure (route, kind, text) to a known defect class, or None"""
     r, k, _ = bad
     plain = f.get(r, "")[3:]
+    if k == "round-trip" and has_none_map_value(v):
+        return F33
     if v[0] == "st" and v[1] == NAME and r in ("ts", "tp") and f.get("es", "").startswith("err:"):
         return F17
     if r == "ep" and k in ("altered", "round-trip") and not any(x[0] == "es" for x in judge(v, f)):
@@ -966,7 +973,7 @@ def run(ctx):
     mods = ["TomlVerif.Props.C07", "driver"]
     lake_build(ctx, mods, {"TomlVerif.Props.C07": "property theorems"})
     audit(ctx, "TomlVerif.Props.C07", "TomlVerif/Props/C07.lean")
-    extra_props(ctx, ["C07Text"])
+    extra_props(ctx, ["C07Text", "C07RoundTrip"])
     if ctx.tier == "thorough":
         leanchecker(ctx, "TomlVerif.Props.C07")
     tvh = cargo_build(ctx)
